@@ -401,6 +401,19 @@ class Engine:
             recv.length = recv.length - 1
             ctx.note_mut(recv)
             return recv.get(recv.length)
+        if isinstance(recv, SList) and name == "pop" and len(args) == 1:
+            i = args[0]
+            if isinstance(i, int) and i < 0:
+                i = recv.length + i
+            if ctx.branch(zor(i < 0, i >= recv.length)):
+                raise RaiseSignal(IndexError, node)
+            out = recv.get(i)
+            j = z3.Int(fresh_name("jp"))
+            old = recv.arr
+            recv.arr = z3.Lambda([j], z3.If(j < i, z3.Select(old, j), z3.Select(old, j + 1)))   # elements behind i move down by one
+            recv.length = recv.length - 1
+            ctx.note_mut(recv)
+            return out
         if isinstance(recv, (SList, SListView)) and name == "index" and len(args) == 1:
             x = unwrap(args[0])
             j = z3.Int(fresh_name("j"))
